@@ -1,6 +1,7 @@
 (* property number -> op code -> itree -> itree *)
 From Coq Require Import List Arith NArith Bool.
 From AV Require Import Base.ITree Model.D00 Model.D01 Model.D06.
+From AV Require Import Model.D10.
 Import ListNotations.
 
 Definition dispatch (prop op : nat) (t : itree) : itree :=
@@ -8,5 +9,7 @@ Definition dispatch (prop op : nat) (t : itree) : itree :=
   | 0 => d00 op t               (* op 0 = echo / self-test; shared comparators *)
   | 1 => d01 op t
   | 6 => d06 op t
+  | 10 => d10 op t              (* C10 and C11 share the regex ops *)
+  | 11 => d10 op t
   | _ => bad_input
   end.
